@@ -366,6 +366,9 @@ def install_execute2(w):
                 "C16.nop.one_statement": "implies(tx_len() == old(tx_len()), trace_len() == old(trace_len()) + 1)",
                 "C16.nop.is_success_select": "implies(tx_len() == old(tx_len()), trace_at(old(trace_len())) == sql_of(transforms.SUCCESS_NOP, 'duckdb'))",
                 "C16.nop.only_if_configured": "implies(tx_len() == old(tx_len()), bool(self._conn.nop_regexes))",
+                # ... and only for a statement that one of the configured patterns matches *at its start* (case-insensitively), the text
+                # being the command after variables were inlined and parameters bound (the converse is decided by the bounded tier)
+                "C16.nop.only_at_start": f"implies(tx_len() == old(tx_len()), exists(0, old(seq_len(self._conn.nop_regexes)), lambda j: re_match_start(old(seq_at(self._conn.nop_regexes, j)), seq_at(call_res({C0} + 1), 0), 2)))",
                 "C05.replace.fresh": "is_fresh(self._arrow_table) and self._arrow_table_fetch_index is None",
             },
             loops={1: {"inv": [
